@@ -101,7 +101,7 @@ type model struct {
 }
 
 func newModel() *model {
-	m := &model{curFirst: -1, caps: map[int]int{}, aliasBug: vlib.Known(keyAlias)}
+	m := &model{curFirst: -1, caps: map[int]int{}, aliasBug: recycledArrayIsSealed0()}
 	for i := range m.sealed {
 		m.sealed[i] = mbuf{arr: m.newArr(log_buffer.BufferSize), first: -1, last: -1, flush: -1}
 	}
@@ -169,6 +169,36 @@ func (m *model) append(events []event, e event) (rotated bool) {
 	return
 }
 
+// recycledArrayIsSealed0 observes (once per process) which array SealBuffer
+// hands back as the new current buffer: the evicted one, or - the listed finding
+// keyAlias - the one that stays readable as the oldest sealed buffer. Only the
+// capacity bookkeeping of the model depends on it.
+var (
+	aliasOnce sync.Once
+	aliasSeen bool
+)
+
+func recycledArrayIsSealed0() bool {
+	aliasOnce.Do(func() {
+		r := &rig{gate: make(chan struct{}, 1024), acks: make(chan int, 1024)}
+		r.m = &model{curFirst: -1, caps: map[int]int{}}
+		r.attach()
+		defer r.dispose()
+		for i := 0; i < 4; i++ { // e1, e2, e3 each seal the previous buffer: 3 rotations
+			r.lb.AddToBuffer(partitionKey(i), payload(i, 10), t0+int64(i)*2*int64(interval))
+		}
+		b, err := r.lb.ReadFromBuffer(time.Unix(0, t0-1))
+		if err != nil || b == nil {
+			return
+		}
+		defer r.lb.ReleaseMemory(b)
+		if es, _ := parseEntries(b.Bytes()); len(es) > 0 {
+			aliasSeen = es[0].TsNs != t0 // the oldest sealed buffer no longer starts with e0
+		}
+	})
+	return aliasSeen
+}
+
 // ---------------------------------------------------------------- rig
 
 type captured struct {
@@ -186,6 +216,8 @@ type rig struct {
 	m       *model
 	readers []*reader
 	trace   []string
+
+	onNotify func()
 }
 
 func parseEntries(buf []byte) ([]*filer_pb.LogEntry, error) {
@@ -210,6 +242,11 @@ func parseEntries(buf []byte) ([]*filer_pb.LogEntry, error) {
 
 func newRig() *rig {
 	r := &rig{gate: make(chan struct{}, 1024), acks: make(chan int, 1024), m: newModel()}
+	r.attach()
+	return r
+}
+
+func (r *rig) attach() {
 	r.lb = log_buffer.NewLogBuffer("c22", interval, func(start, stop time.Time, buf []byte) {
 		<-r.gate
 		entries, err := parseEntries(buf)
@@ -222,8 +259,14 @@ func newRig() *rig {
 		n := len(r.disk)
 		r.mu.Unlock()
 		r.acks <- n
-	}, func() {})
-	return r
+	}, func() { r.notify() })
+}
+
+// notify is the buffer's notifyFn; the concurrent tests hang a wake-up on it.
+func (r *rig) notify() {
+	if r.onNotify != nil {
+		r.onNotify()
+	}
 }
 
 // dispose unblocks the flusher, stops the buffer and drops its 16 MiB.
@@ -265,7 +308,12 @@ func (r *rig) releaseOne(t fataler) bool {
 	}
 	f := r.m.flushes[r.m.released]
 	r.gate <- struct{}{}
-	<-r.acks
+	select {
+	case <-r.acks:
+	case <-time.After(5 * time.Minute):
+		// not a verdict about the buffer: the harness' rotation model expected a queued flush
+		t.Fatalf("INCONCLUSIVE: harness rotation model expects queued flush #%d but flushFn was not called\n%s", r.m.released, r.history())
+	}
 	r.m.released++
 	stop := r.events[f.last].ts
 	for i := 0; ; i++ {
@@ -722,4 +770,104 @@ func bucket(n int) string {
 	default:
 		return "5+"
 	}
+}
+
+// ---------------------------------------------------------------- finding probes
+
+// collectAll runs one reader to a fixpoint without the prefix oracle and
+// returns the timestamps it was given (probes want to see everything).
+func collectAll(r *rig, start int64) (got []int64, err error) {
+	last := time.Unix(0, start)
+	var memErr error
+	each := func(e *filer_pb.LogEntry) error { got = append(got, e.TsNs); return nil }
+	for i := 0; i < 1000; i++ {
+		var processed int64
+		r.mu.Lock()
+		disk := append([]captured{}, r.disk...)
+		r.mu.Unlock()
+		for _, c := range disk {
+			for _, e := range c.entries {
+				if e.TsNs > last.UnixNano() {
+					got = append(got, e.TsNs)
+					processed = e.TsNs
+				}
+			}
+		}
+		if processed != 0 {
+			last = time.Unix(0, processed)
+		} else if memErr == log_buffer.ResumeFromDiskError {
+			return got, nil
+		}
+		last, memErr = r.lb.LoopProcessLogData("probe", last, func() bool { return false }, each)
+		if memErr == nil {
+			return got, nil
+		}
+		if memErr != log_buffer.ResumeFromDiskError {
+			return got, memErr
+		}
+	}
+	return got, fmt.Errorf("no fixpoint")
+}
+
+func relList(ts []int64) string {
+	var s []string
+	for _, x := range ts {
+		s = append(s, rel(x))
+	}
+	return "[" + strings.Join(s, " ") + "]"
+}
+
+// Three rotations while no flush has completed, then a reader from the start:
+// the new current buffer shares its array with the oldest sealed buffer.
+func TestFindingSealedBufferAliasesCurrent(t *testing.T) {
+	r := newRig()
+	defer r.dispose()
+	h := int64(interval)
+	for i := 0; i < 4; i++ {
+		r.appendEvent(t0+int64(i)*2*h, 10)
+	}
+	got, err := collectAll(r, t0-1000)
+	want := []int64{t0, t0 + 2*h, t0 + 4*h, t0 + 6*h}
+	bad := err != nil || len(got) != len(want)
+	for i := 0; !bad && i < len(want); i++ {
+		bad = got[i] != want[i]
+	}
+	vlib.Finding(t, keyAlias, bad, fmt.Sprintf("append e0@T0, e1@T0+2h, e2@T0+4h, e3@T0+6h (interval 1h: 3 rotations, flushes not completed yet); a subscriber from T0-1000 receives %s err=%v, want %s: SealedBuffers.SealBuffer keeps a pointer to buffers[0], shifts the entries (overwriting that struct) and returns its .buf, so the array handed back as the new current buffer is the one that stays readable as the oldest sealed buffer; every later append overwrites sealed data that readers are still served from", relList(got), err, relList(want)))
+}
+
+// Four rotations while the first flush has not completed: its buffer is gone
+// from memory, not yet on disk, and nothing tells the reader.
+func TestFindingEvictedBeforeFlushGap(t *testing.T) {
+	r := newRig()
+	defer r.dispose()
+	h := int64(interval)
+	for i := 0; i < 5; i++ {
+		r.appendEvent(t0+int64(i)*2*h, 10)
+	}
+	got, err := collectAll(r, t0-1000)
+	for r.m.pending() > 0 {
+		r.releaseOne(t)
+	}
+	more, err2 := collectAll(r, func() int64 {
+		if len(got) > 0 {
+			return got[len(got)-1]
+		}
+		return t0 - 1000
+	}())
+	got = append(got, more...)
+	hasE0 := false
+	for _, x := range got {
+		if x == t0 {
+			hasE0 = true
+		}
+	}
+	vlib.Finding(t, keyGap, !hasE0, fmt.Sprintf("append e0..e4 two hours apart (interval 1h: 4 rotations) while flush #0 (e0) is still in flushFn; a subscriber from T0-1000 is served from memory and receives %s (err=%v/%v) even after all flushes completed: e0 was evicted from the 3 sealed buffers before lastFlushTime told readers to resume from disk, so it is skipped for good", relList(got), err, err2))
+}
+
+// The write of lastFlushTime in loopFlush happens outside the lock that
+// ReadFromBuffer holds while reading it. Only the race detector can see that;
+// this probe runs in the plain build and therefore cannot reproduce it.
+func TestFindingLastFlushTimeRace(t *testing.T) {
+	vlib.Finding(t, keyRace, false, "data race, visible only under -race (TestRaceFlushDuringReads with the listing removed): loopFlush writes m.lastFlushTime without the lock, ReadFromBuffer reads it under RLock; not decidable in the plain build")
+	vlib.Finding(t, keyStop, false, "data race, visible only under -race: loopInterval reads m.isStopping without the lock, Shutdown writes it under the lock; not decidable in the plain build")
 }
